@@ -2,6 +2,7 @@ package q
 
 import (
 	"fmt"
+	"go/types"
 	"sort"
 	"strings"
 
@@ -255,5 +256,56 @@ func (c *Ctx) ArgIs(fn *ssa.Function, spec string, idx int, glob string, min int
 		} else {
 			c.Fail("K11", fnName, what, c.At(ci), "provenance is `"+short(s, 300)+"` ("+why+")")
 		}
+	}
+}
+
+// MemoFields (K3): the fields of struct type T that can remember answers between calls (maps, sync.Map, LRU caches,
+// anything whose type name says cache) are exactly the frozen table. A type whose answers have to come out of the
+// confirmed state on every call gets a new mirror with every such field: it has to be re-confirmed (what invalidates
+// it, and when) before the table is extended.
+func (c *Ctx) MemoFields(pkgSuffix, typeName string, allowed map[string]string, why string) {
+	t := c.TypeOf(pkgSuffix, typeName)
+	if t == nil {
+		return
+	}
+	st, ok := t.Underlying().(*types.Struct)
+	if !ok {
+		c.Fail("anchor", pkgSuffix+"."+typeName, "is a struct", "-", "type changed")
+		return
+	}
+	name := pkgSuffix + "." + typeName
+	seen := map[string]bool{}
+	for i := 0; i < st.NumFields(); i++ {
+		f := st.Field(i)
+		ft := f.Type()
+		if p, ok := ft.(*types.Pointer); ok {
+			ft = p.Elem()
+		}
+		memo := false
+		if _, isMap := ft.Underlying().(*types.Map); isMap {
+			memo = true
+		}
+		ts := ft.String()
+		if ts == "sync.Map" || strings.Contains(strings.ToLower(ts), "cache") || strings.Contains(strings.ToLower(ts), "lru") {
+			memo = true
+		}
+		if !memo {
+			continue
+		}
+		c.Sites++
+		seen[f.Name()] = true
+		if reason, ok := allowed[f.Name()]; ok {
+			c.OK("K3", name, "field "+f.Name()+" may remember answers between calls", c.P.Pos(f.Pos()), reason)
+		} else {
+			c.Fail("K3", name, "field "+f.Name()+" may remember answers between calls", c.P.Pos(f.Pos()), "not in the frozen table of memoising fields ("+why+")")
+		}
+	}
+	for f := range allowed {
+		if !seen[f] {
+			c.Fail("K3", name, "field "+f+" may remember answers between calls", "-", "listed field not found: the table must be re-confirmed")
+		}
+	}
+	if len(allowed) == 0 && len(seen) == 0 {
+		c.OK("K3", name, "no field remembers answers between calls", "-", why)
 	}
 }
